@@ -201,6 +201,49 @@ theorem length_le_flatMap {α β : Type} (f : α → List β) (xs : List α) (h 
     have := ih (fun y hy => h y (List.mem_cons_of_mem _ hy))
     simp only [List.flatMap_cons, List.length_append, List.length_cons]; omega
 
+/-- the result of `parseOptional` when the optional part is present, as a function of the callback's result -/
+def optMap {α : Type} (r : PR α) : PR (Option α) :=
+  match r with
+  | .ok (a, st') => .ok (some a, st')
+  | .error e => .error e
+
+@[simp] theorem optMap_ok {α : Type} (a : α) (st' : PState) :
+    optMap (.ok (a, st') : PR α) = .ok (some a, st') := rfl
+
+theorem parseOptional_eq {α : Type} {st : PState} {t : PTok} {rest : List PTok} {k : Token}
+    (cb : PState → PR α) (h : E st = t :: rest) (hk : t.res = .ok k) :
+    parseOptional st k cb = optMap (cb st.next.2) := by
+  obtain ⟨lt, hp, ht⟩ := peek_of_E h
+  have hres : lt.res = .ok k := by rw [← ht] at hk; exact hk
+  simp only [parseOptional, hp, hres, if_true, optMap]
+  cases cb st.next.2 with
+  | error e => rfl
+  | ok v => rfl
+
+theorem next_of_E {st : PState} {t : PTok} {rest : List PTok} (h : E st = t :: rest) :
+    ∃ lt st', st.next = (some lt, st') ∧ E st' = rest := by
+  obtain ⟨lt, r, hs, -, hr⟩ := E_cons h
+  exact ⟨lt, _, by simp only [PState.next, hs]; rfl, by simp [E, hr]⟩
+
+theorem peekIs_false_of_headIn {st : PState} {ks : List Token} {k' : Token} (h : headIn ks (E st))
+    (hne : k' ∉ ks) : peekIs st k' = false := by
+  obtain ⟨t, r, k, e, hk, hm⟩ := h
+  exact peekIs_false ⟨t, r, e, hk⟩ (by rintro rfl; exact hne hm)
+
+theorem headNot.mono {ks ks' : List Token} {ts : List PTok} (h : headNot ks ts)
+    (hm : ∀ k ∈ ks', k ∈ ks) : headNot ks' ts := by
+  intro t r e
+  obtain ⟨k, hk, hn⟩ := h t r e
+  exact ⟨k, hk, fun hk' => hn (hm k hk')⟩
+
+theorem ParsesTo.follow {α : Type} {parse : PState → PR α} {er : α → α} {ts : List PTok} {x : α}
+    {F F' : List PTok → Prop} (h : ParsesTo parse er ts x F) (hF : ∀ r, F' r → F r) :
+    ParsesTo parse er ts x F' :=
+  fun st rest hE hr => h st rest hE (hF rest hr)
+
+theorem headIn_length_pos {ks : List Token} {ts : List PTok} (h : headIn ks ts) : 1 ≤ ts.length := by
+  obtain ⟨t, r, k, e, -, -⟩ := h; subst e; simp
+
 /-! ### one iteration of `parseDelimited` -/
 
 theorem parseDelimited_stop {α : Type} {stop : Token} {wc : Bool} {peeks : List Token}
@@ -321,6 +364,33 @@ theorem parseDelimited_separated {α : Type} {stop : Token} {peeks : List Token}
         (fun z hz => hitem z (List.mem_cons_of_mem _ hz)) n (by simp at hn ⊢; omega) st2 rest hE2 hF
       refine ⟨x' :: xs', st3, heq _ _ hp3, ?_, hE3⟩
       simp [hx, hxs]
+
+
+theorem length_le_sepList {α : Type} (f : α → List PTok) (xs : List α) (h : ∀ x ∈ xs, 1 ≤ (f x).length) :
+    xs.length ≤ (sepList f xs).length := by
+  induction xs with
+  | nil => simp
+  | cons x xs ih =>
+    have h1 := h x (List.mem_cons_self ..)
+    have h2 := ih (fun y hy => h y (List.mem_cons_of_mem _ hy))
+    cases xs with
+    | nil => simpa [sepList] using h1
+    | cons y r => simp only [sepList, List.length_append, List.length_cons] at h2 ⊢; omega
+
+theorem sepList_mem_length {α : Type} (f : α → List PTok) (xs : List α) (x : α) (hx : x ∈ xs) :
+    (f x).length ≤ (sepList f xs).length := by
+  induction xs with
+  | nil => cases hx
+  | cons y xs ih =>
+    cases xs with
+    | nil =>
+      have : x = y := by simpa using hx
+      subst this; simp [sepList]
+    | cons z r =>
+      simp only [sepList, List.length_append, List.length_cons]
+      rcases List.mem_cons.1 hx with rfl | hx'
+      · omega
+      · have := ih hx'; omega
 
 /-- items without separators (resource methods, interface items, world items) -/
 theorem parseDelimited_plain {α : Type} {stop : Token} {peeks : List Token}
